@@ -693,6 +693,56 @@ func closedAfterWait(fn *ssa.Function, ch ssa.Value) bool {
 			}
 		}
 	}
+	// the closing goroutine may be a named function that receives the channel as an argument
+	strip := func(v ssa.Value) ssa.Value {
+		for {
+			switch x := v.(type) {
+			case *ssa.ChangeType:
+				v = x.X
+			case *ssa.Convert:
+				v = x.X
+			default:
+				return v
+			}
+		}
+	}
+	for _, b := range fn.Blocks {
+		for _, in := range b.Instrs {
+			g, ok := in.(*ssa.Go)
+			if !ok {
+				continue
+			}
+			h := g.Call.StaticCallee()
+			if h == nil || len(h.Blocks) == 0 {
+				continue
+			}
+			for i, a := range g.Call.Args {
+				if strip(a) != strip(ch) || i >= len(h.Params) {
+					continue
+				}
+				var wait, closeI ssa.Instruction
+				for _, hb := range h.Blocks {
+					for _, hin := range hb.Instrs {
+						call, ok := hin.(*ssa.Call)
+						if !ok {
+							continue
+						}
+						if engine.CalleeName(call) == "(*sync.WaitGroup).Wait" {
+							wait = call
+						}
+						if bi, ok := call.Call.Value.(*ssa.Builtin); ok && bi.Name() == "close" && strip(call.Call.Args[0]) == ssa.Value(h.Params[i]) {
+							closeI = call
+						}
+					}
+				}
+				if wait != nil && closeI != nil {
+					if r, _ := engine.PathExists(h, nil, engine.IsInstr(closeI), engine.PathQuery{CutInstr: engine.IsInstr(wait)}); !r {
+						return true
+					}
+				}
+			}
+		}
+	}
 	return false
 }
 
@@ -736,7 +786,7 @@ func ruleR04b(c *Check, w *walkerInfo) {
 // R04c completion on every exit; interrupted walk returns without blocking
 
 func ruleR04c(c *Check, w *walkerInfo) {
-	c.Rule("R04c", "the node routine defers WaitGroup.Done first; after the callback returned, every path to the routine's exit reports a completion unless the error is context.Canceled; every Add(1) is followed by the spawn; the walk's final select has a join arm and a ctx.Done arm, and the ctx.Done arm cancels all nodes and returns without any blocking operation", 4)
+	c.Rule("R04c", "the node routine defers WaitGroup.Done first; after the callback returned, every path to the routine's exit reports a completion unless the walk's own context is done (ctx.Err() != nil); every Add(1) is followed by the spawn; the walk's final select has a join arm and a ctx.Done arm, and the ctx.Done arm cancels all nodes and returns without any blocking operation", 4)
 	if w == nil {
 		return
 	}
@@ -764,16 +814,25 @@ func ruleR04c(c *Check, w *walkerInfo) {
 		return false
 	}
 	isRet := func(in ssa.Instruction) bool { _, r := in.(*ssa.Return); return r }
-	reach, at := engine.PathExists(w.Routine, w.CallbackCall, isRet, engine.PathQuery{CutInstr: isComplete, CutEdge: engine.CutEdgesWhere(func(a engine.Atom) bool {
-		// errors.Is(err, context.Canceled) == true
-		call, _ := engine.CallOf(a.V)
-		if a.Op != "true" || call == nil || engine.CalleeName(call) != "errors.Is" {
-			return false
-		}
-		if ld, ok := call.Common().Args[1].(*ssa.UnOp); ok {
-			if g, ok := ld.X.(*ssa.Global); ok && g.Name() == "Canceled" {
+	// the only exit without a completion is the one taken when the walk's own context is done: `ctx.Err() != nil`
+	// (a callback error that merely wraps context.Canceled says nothing about the walk — a cache client may
+	// cancel a request context of its own — and leaving the node uncompleted makes its dependants wait forever)
+	fromCtxErr := func(v ssa.Value) bool {
+		for _, o := range engine.Origins(v) {
+			if call, _ := engine.CallOf(o); call != nil && strings.HasSuffix(engine.CalleeName(call), "context.Context).Err") {
 				return true
 			}
+		}
+		return false
+	}
+	reach, at := engine.PathExists(w.Routine, w.CallbackCall, isRet, engine.PathQuery{CutInstr: isComplete, CutEdge: engine.CutEdgesWhere(func(a engine.Atom) bool {
+		if a.Op == "nonnil" && fromCtxErr(a.V) {
+			return true
+		}
+		// errors.Is(ctx.Err(), context.Canceled) == true
+		call, _ := engine.CallOf(a.V)
+		if a.Op == "true" && call != nil && engine.CalleeName(call) == "errors.Is" && len(call.Common().Args) == 2 {
+			return fromCtxErr(call.Common().Args[0])
 		}
 		return false
 	})})
@@ -781,7 +840,7 @@ func ruleR04c(c *Check, w *walkerInfo) {
 	if at != nil {
 		pos = c.P.InstrPos(at)
 	}
-	c.Require(!reach && len(completes) > 0, "R04c", "completion-on-every-exit/"+rn, "after the callback every non-cancelled path reports a completion", "the routine can exit after running the callback without reporting a completion (and without having been cancelled): dependants are never released nor cancelled and the walk hangs", pos)
+	c.Require(!reach && len(completes) > 0, "R04c", "completion-on-every-exit/"+rn, "after the callback every path on which the walk's context is not known to be done reports a completion", "the routine can exit after running the callback without reporting a completion although the walk's own context is not known to be done (a callback error that wraps context.Canceled is not evidence of that): the failed target is never recorded, its dependants are never released nor cancelled and the walk hangs", pos)
 	// walk: Add(1) then spawn
 	wn := c.P.FuncName(w.Walk)
 	okAdd := true
